@@ -132,6 +132,12 @@ func c10GenConsistent(rng *rand.Rand, slen int, small bool) Case {
 		off += n
 	}
 	nbase := len(segs)
+	if rng.Intn(3) == 0 && nbase > 0 {
+		// put a segment boundary exactly at (or one off) the wrap / a quarter boundary
+		c := segs[rng.Intn(nbase)].off
+		base := c10Bases[rng.Intn(len(c10Bases))]
+		isn = uint32(base - 1 - uint64(c) + uint64(rng.Intn(3)) - 1)
+	}
 	// arrival keys: bounded displacement
 	disp := []int{0, 1, 2, 4, 8, 1000}[rng.Intn(6)]
 	for i := range segs {
@@ -369,6 +375,12 @@ func (c10) Gen(rng *rand.Rand, tier string) []Case {
 				}
 				c10GenPermutations(&out, S, isn, cuts, true, lim[0], lim[1], 0, rng)
 			}
+		}
+	}
+	// a one-byte segment ending exactly at the wrap / each quarter boundary, all arrival orders
+	for _, base := range []uint64{1 << 32, 1 << 30, 1 << 31, 3 << 30} {
+		for _, d := range []uint64{0, 1} {
+			c10GenPermutations(&out, S, uint32(base-1-1-5+d), []int{5, 6, 9}, true, 0, 0, 0, rng)
 		}
 	}
 	for i := 0; i < nSmall; i++ {
